@@ -44,7 +44,7 @@ func Parse(pattern string, desc bool) *Glob {
 outer:
 	for i := 0; i < len(pattern); i++ {
 		switch pattern[i] {
-		case '[', '*', '?':
+		case '[', '*', '?', '\\':
 			_, err := Match(pattern, "whatever")
 			if err == nil {
 				isGlob = true
